@@ -1,4 +1,3 @@
-(* WIP *)
 (* The particle tree refines the abstract index: every operation of topics.go keeps the relation R and
    returns what the set / map specification returns; Subscribers selects exactly the matching
    subscriptions (C01, C31 sequential part, topics part of C40). *)
@@ -15,7 +14,8 @@ Record R (x : index) (a : astate) : Prop := mkRrel {
   R_in : Rin (content_at (ix_root x)) (a_in a);
   R_ret : ix_ret x = a_ret a;
   R_rp : Rrp (content_at (ix_root x)) (ix_ret x);
-  R_nd : NoDup (keys (a_cl a)) /\ NoDup (keys (a_sh a)) /\ NoDup (keys (a_in a)) /\ NoDup (keys (a_ret a))
+  R_nd : NoDup (keys (a_cl a)) /\ NoDup (keys (a_sh a)) /\ NoDup (keys (a_in a)) /\ NoDup (keys (a_ret a));
+  R_pl : forall t pl, al_get beq_bytes t (ix_ret x) = Some pl -> pl <> []
 }.
 
 Lemma R_empty : R ix_empty a_empty.
@@ -29,6 +29,7 @@ Proof.
   - reflexivity.
   - split; intros; [discriminate|]. rewrite content_at_new in *. cbn in *. contradiction.
   - repeat split; constructor.
+  - discriminate.
 Qed.
 
 (* ---------- point updates ---------- *)
@@ -136,7 +137,7 @@ Lemma subscribe_R x a c f pay : R x a -> wf_opb (OSub c f pay) = true ->
   R (fst (subscribe x c f pay)) (fst (a_step a (OSub c f pay))) /\
   snd (subscribe x c f pay) = snd (a_step a (OSub c f pay)).
 Proof.
-  intros [Wf Rt Cl Sh In Re Rp (N1 & N2 & N3 & N4)] WO. unfold subscribe. cbn [a_step wf_opb] in *.
+  intros [Wf Rt Cl Sh In Re Rp (N1 & N2 & N3 & N4) Pl] WO. unfold subscribe. cbn [a_step wf_opb] in *.
   destruct (isolate f 0) as [prefix hn0] eqn:I0.
   assert (P : is_share_level prefix = is_share f) by (rewrite <- is_share_isolate, I0; reflexivity).
   rewrite P. destruct (is_share f) eqn:S.
@@ -159,6 +160,7 @@ Proof.
       * exact Re.
       * eapply Rrp_ext; [|exact Rp]. apply (upd_other c_retain _ _ _ _ U). reflexivity.
       * repeat split; try assumption. apply NoDup_al_set; [exact beq_triple_eq|exact N2].
+      * exact Pl.
     + rewrite content_at_create. destruct Sh as [A _]. subst p g i. rewrite A, omem_map. unfold al_mem.
       destruct (al_get beq_triple (c, share_group f, eff_filter f) (a_sh a)); reflexivity.
   - (* not shared *)
@@ -176,6 +178,255 @@ Proof.
       * exact Re.
       * eapply Rrp_ext; [|exact Rp]. apply (upd_other c_retain _ _ _ _ U). reflexivity.
       * repeat split; try assumption. apply NoDup_al_set; [exact beq_pair_eq|exact N1].
+      * exact Pl.
     + rewrite content_at_create. destruct Cl as [A _]. subst p. rewrite A, omem_map. unfold al_mem.
       destruct (al_get beq_pair (c, f) (a_cl a)); reflexivity.
+Qed.
+
+(* ---------- removal of one entry, given the point update of the tree ---------- *)
+Lemma R_cl_del x a r' c f : R x a -> wf_node r' ->
+  upd (ix_root x) r' (split f) (fun c0 => set_subs (al_del beq_bytes c (c_subs c0)) c0) ->
+  R (mkIx r' (ix_ret x)) (mkA (al_del beq_pair (c, f) (a_cl a)) (a_sh a) (a_in a) (a_ret a)).
+Proof.
+  intros [Wf Rt Cl Sh In Re Rp (N1 & N2 & N3 & N4) Pl] W' U.
+  constructor; cbn [ix_root ix_ret a_cl a_sh a_in a_ret].
+  - exact W'.
+  - rewrite (upd_root _ _ _ _ U (split_nonempty f)). exact Rt.
+  - eapply Rcl_del; [|exact Cl]. apply (upd_same c_subs (al_del beq_bytes c) _ _ _ _ U). reflexivity.
+  - eapply Rsh_ext; [|exact Sh]. apply (upd_other c_shared _ _ _ _ U). reflexivity.
+  - eapply Rin_ext; [|exact In]. apply (upd_other c_inline _ _ _ _ U). reflexivity.
+  - exact Re.
+  - eapply Rrp_ext; [|exact Rp]. apply (upd_other c_retain _ _ _ _ U). reflexivity.
+  - repeat split; try assumption. apply NoDup_al_del. exact N1.
+  - exact Pl.
+Qed.
+
+Lemma R_sh_del x a r' c f : R x a -> wf_node r' ->
+  upd (ix_root x) r' (split (eff_filter f)) (fun c0 => set_shared (sh_del (share_group f) c (c_shared c0)) c0) ->
+  R (mkIx r' (ix_ret x))
+    (mkA (a_cl a) (al_del beq_triple (c, share_group f, eff_filter f) (a_sh a)) (a_in a) (a_ret a)).
+Proof.
+  intros [Wf Rt Cl Sh In Re Rp (N1 & N2 & N3 & N4) Pl] W' U.
+  constructor; cbn [ix_root ix_ret a_cl a_sh a_in a_ret].
+  - exact W'.
+  - rewrite (upd_root _ _ _ _ U (split_nonempty _)). exact Rt.
+  - eapply Rcl_ext; [|exact Cl]. apply (upd_other c_subs _ _ _ _ U). reflexivity.
+  - eapply Rsh_del; [|exact Sh]. apply (upd_same c_shared (sh_del (share_group f) c) _ _ _ _ U). reflexivity.
+  - eapply Rin_ext; [|exact In]. apply (upd_other c_inline _ _ _ _ U). reflexivity.
+  - exact Re.
+  - eapply Rrp_ext; [|exact Rp]. apply (upd_other c_retain _ _ _ _ U). reflexivity.
+  - repeat split; try assumption. apply NoDup_al_del. exact N2.
+  - exact Pl.
+Qed.
+
+Lemma R_in_del x a r' id f : R x a -> wf_node r' ->
+  upd (ix_root x) r' (split f) (fun c0 => set_inline (al_del N.eqb id (c_inline c0)) c0) ->
+  R (mkIx r' (ix_ret x)) (mkA (a_cl a) (a_sh a) (al_del beq_npair (id, f) (a_in a)) (a_ret a)).
+Proof.
+  intros [Wf Rt Cl Sh In Re Rp (N1 & N2 & N3 & N4) Pl] W' U.
+  constructor; cbn [ix_root ix_ret a_cl a_sh a_in a_ret].
+  - exact W'.
+  - rewrite (upd_root _ _ _ _ U (split_nonempty f)). exact Rt.
+  - eapply Rcl_ext; [|exact Cl]. apply (upd_other c_subs _ _ _ _ U). reflexivity.
+  - eapply Rsh_ext; [|exact Sh]. apply (upd_other c_shared _ _ _ _ U). reflexivity.
+  - eapply Rin_del; [|exact In]. apply (upd_same c_inline (al_del N.eqb id) _ _ _ _ U). reflexivity.
+  - exact Re.
+  - eapply Rrp_ext; [|exact Rp]. apply (upd_other c_retain _ _ _ _ U). reflexivity.
+  - repeat split; try assumption. apply NoDup_al_del. exact N3.
+  - exact Pl.
+Qed.
+
+Lemma index_eta x : x = mkIx (ix_root x) (ix_ret x).
+Proof. destruct x. reflexivity. Qed.
+
+Lemma content_at_seek_none r p : seek p r = None -> content_at r p = empty_content.
+Proof. intro S. unfold content_at. rewrite S. reflexivity. Qed.
+
+(* ---------- Unsubscribe ---------- *)
+Lemma unsubscribe_R x a c f : R x a -> wf_opb (OUnsub c f) = true ->
+  R (fst (unsubscribe x f c)) (fst (a_step a (OUnsub c f))) /\
+  snd (unsubscribe x f c) = snd (a_step a (OUnsub c f)).
+Proof.
+  intros HR WO. pose proof HR as [Wf Rt Cl Sh In Re Rp (N1 & N2 & N3 & N4) Pl].
+  unfold unsubscribe. cbn [a_step wf_opb] in *.
+  destruct (isolate f 0) as [prefix hn0] eqn:I0.
+  assert (P : is_share_level prefix = is_share f) by (rewrite <- is_share_isolate, I0; reflexivity).
+  rewrite P. destruct (is_share f) eqn:S.
+  - apply Nat.ltb_lt in WO. rewrite (path_of_2 f WO), <- (eff_split f S WO).
+    destruct (isolate f 1) as [group hn1] eqn:I1.
+    assert (G : group = share_group f) by (rewrite <- (isolate_1 f WO), I1; reflexivity). subst group.
+    destruct Sh as [A _]. specialize (A c (share_group f) (eff_filter f)). unfold al_mem.
+    destruct (seek (split (eff_filter f)) (ix_root x)) as [m|] eqn:SK; cbn [fst snd].
+    + split.
+      * apply R_sh_del; [exact HR| |].
+        -- apply trim_wf. apply modify_wf; [intros; apply wf_set_shared_del; assumption|exact Wf].
+        -- apply upd_trim; [exact Wf|intros; apply wf_set_shared_del; assumption|congruence].
+      * rewrite (seek_content _ _ _ SK), A, omem_map.
+        destruct (al_get beq_triple (c, share_group f, eff_filter f) (a_sh a)); reflexivity.
+    + split.
+      * rewrite (index_eta x) at 1. apply R_sh_del; [exact HR|exact Wf|].
+        apply upd_none; [exact SK|reflexivity].
+      * rewrite (content_at_seek_none _ _ SK) in A. cbn in A.
+        destruct (al_get beq_triple (c, share_group f, eff_filter f) (a_sh a)); [discriminate|reflexivity].
+  - rewrite path_of_0. destruct Cl as [A _]. specialize (A c f). unfold al_mem.
+    destruct (seek (split f) (ix_root x)) as [m|] eqn:SK; cbn [fst snd].
+    + split.
+      * apply R_cl_del; [exact HR| |].
+        -- apply trim_wf. apply modify_wf; [intros; apply wf_set_subs_del; assumption|exact Wf].
+        -- apply upd_trim; [exact Wf|intros; apply wf_set_subs_del; assumption|congruence].
+      * rewrite (seek_content _ _ _ SK), A, omem_map.
+        destruct (al_get beq_pair (c, f) (a_cl a)); reflexivity.
+    + split.
+      * rewrite (index_eta x) at 1. apply R_cl_del; [exact HR|exact Wf|].
+        apply upd_none; [exact SK|reflexivity].
+      * rewrite (content_at_seek_none _ _ SK) in A. cbn in A.
+        destruct (al_get beq_pair (c, f) (a_cl a)); [discriminate|reflexivity].
+Qed.
+
+(* ---------- InlineSubscribe / InlineUnsubscribe ---------- *)
+Lemma inline_subscribe_R x a id f pay : R x a ->
+  R (fst (inline_subscribe x id f pay)) (fst (a_step a (OInSub id f pay))) /\
+  snd (inline_subscribe x id f pay) = snd (a_step a (OInSub id f pay)).
+Proof.
+  intros [Wf Rt Cl Sh In Re Rp (N1 & N2 & N3 & N4) Pl]. unfold inline_subscribe. cbn [a_step].
+  rewrite path_of_0. set (p := split f).
+  set (F := fun c0 : content => set_inline (al_set N.eqb id (mkSub f pay) (c_inline c0)) c0).
+  pose proof (upd_set p F (ix_root x)) as U. cbn [fst snd]. split.
+  - assert (NE : p <> []) by apply split_nonempty.
+    constructor; cbn [ix_root ix_ret a_cl a_sh a_in a_ret].
+    + apply modify_wf; [intros; apply wf_set_inline_set; assumption|apply create_wf; exact Wf].
+    + rewrite (upd_root _ _ _ _ U NE). exact Rt.
+    + eapply Rcl_ext; [|exact Cl]. apply (upd_other c_subs _ _ _ _ U). reflexivity.
+    + eapply Rsh_ext; [|exact Sh]. apply (upd_other c_shared _ _ _ _ U). reflexivity.
+    + eapply Rin_set; [|exact In].
+      apply (upd_same c_inline (al_set N.eqb id (mkSub f pay)) _ _ _ _ U). reflexivity.
+    + exact Re.
+    + eapply Rrp_ext; [|exact Rp]. apply (upd_other c_retain _ _ _ _ U). reflexivity.
+    + repeat split; try assumption. apply NoDup_al_set; [exact beq_npair_eq|exact N3].
+    + exact Pl.
+  - rewrite content_at_create. destruct In as [A _]. subst p. rewrite A, omem_map. unfold al_mem.
+    destruct (al_get beq_npair (id, f) (a_in a)); reflexivity.
+Qed.
+
+Lemma inline_unsubscribe_R x a id f : R x a ->
+  R (fst (inline_unsubscribe x id f)) (fst (a_step a (OInUnsub id f))) /\
+  snd (inline_unsubscribe x id f) = snd (a_step a (OInUnsub id f)).
+Proof.
+  intros HR. pose proof HR as [Wf Rt Cl Sh In Re Rp (N1 & N2 & N3 & N4) Pl].
+  unfold inline_unsubscribe. cbn [a_step]. rewrite path_of_0.
+  destruct In as [A _]. specialize (A id f). unfold al_mem.
+  destruct (seek (split f) (ix_root x)) as [m|] eqn:SK; cbn [fst snd].
+  - split.
+    + apply R_in_del; [exact HR| |].
+      * destruct (nilb (al_del N.eqb id (c_inline (cont m)))); [apply trim_wf|];
+          (apply modify_wf; [intros; apply wf_set_inline_del; assumption|exact Wf]).
+      * destruct (nilb (al_del N.eqb id (c_inline (cont m)))).
+        -- apply upd_trim; [exact Wf|intros; apply wf_set_inline_del; assumption|congruence].
+        -- apply upd_modify. congruence.
+    + rewrite (seek_content _ _ _ SK), A, omem_map.
+      destruct (al_get beq_npair (id, f) (a_in a)); reflexivity.
+  - split.
+    + rewrite (index_eta x) at 1. apply R_in_del; [exact HR|exact Wf|].
+      apply upd_none; [exact SK|reflexivity].
+    + rewrite (content_at_seek_none _ _ SK) in A. cbn in A.
+      destruct (al_get beq_npair (id, f) (a_in a)); [discriminate|reflexivity].
+Qed.
+
+(* ---------- RetainMessage / expiry ---------- *)
+Lemma valid_topic_nonempty t : valid_topicb t = true -> t <> [].
+Proof. unfold valid_topicb. destruct t; [discriminate|discriminate]. Qed.
+
+Lemma retain_R x a t pl : R x a -> wf_opb (ORetain t pl) = true ->
+  R (fst (retain_message x t pl)) (fst (a_step a (ORetain t pl))) /\
+  snd (retain_message x t pl) = snd (a_step a (ORetain t pl)).
+Proof.
+  intros [Wf Rt Cl Sh In Re Rp (N1 & N2 & N3 & N4) Pl] WO. cbn [wf_opb] in WO.
+  apply valid_topic_nonempty in WO. unfold retain_message. cbn [a_step]. rewrite path_of_0.
+  destruct (nilb pl) eqn:E; cbn [negb fst snd].
+  - (* clear *)
+    set (F := set_retain []).
+    assert (W1 : wf_node (modify (split t) F (create (split t) (ix_root x)))).
+    { apply modify_wf; [intros; apply wf_set_retain; assumption|apply create_wf; exact Wf]. }
+    assert (U : upd (ix_root x) (trim (split t) (modify (split t) F (create (split t) (ix_root x)))) (split t) F).
+    { intro q. rewrite content_at_trim by exact W1. apply content_at_update. }
+    split.
+    + constructor; cbn [ix_root ix_ret a_cl a_sh a_in a_ret].
+      * apply trim_wf. exact W1.
+      * rewrite (upd_root _ _ _ _ U (split_nonempty t)). exact Rt.
+      * eapply Rcl_ext; [|exact Cl]. apply (upd_other c_subs _ _ _ _ U). reflexivity.
+      * eapply Rsh_ext; [|exact Sh]. apply (upd_other c_shared _ _ _ _ U). reflexivity.
+      * eapply Rin_ext; [|exact In]. apply (upd_other c_inline _ _ _ _ U). reflexivity.
+      * rewrite Re. reflexivity.
+      * eapply Rrp_clear; [|exact Rp]. apply (upd_same c_retain (fun _ => []) _ _ _ _ U). reflexivity.
+      * repeat split; try assumption. apply NoDup_al_del. exact N4.
+      * intros t2 pl2. destruct (eqb_dec beq_bytes bb_eq t2 t) as [->|NE].
+        -- rewrite al_get_del_same. discriminate.
+        -- rewrite al_get_del_other by (exact bb_eq || exact NE). apply Pl.
+    + unfold al_mem. rewrite <- Re. destruct (al_get beq_bytes t (ix_ret x)) as [pl0|] eqn:G; [|reflexivity].
+      apply Pl in G. destruct pl0; [contradiction|reflexivity].
+  - (* store *)
+    set (F := set_retain t).
+    pose proof (upd_set (split t) F (ix_root x)) as U. split; [|reflexivity].
+    constructor; cbn [ix_root ix_ret a_cl a_sh a_in a_ret].
+    + apply modify_wf; [intros; apply wf_set_retain; assumption|apply create_wf; exact Wf].
+    + rewrite (upd_root _ _ _ _ U (split_nonempty t)). exact Rt.
+    + eapply Rcl_ext; [|exact Cl]. apply (upd_other c_subs _ _ _ _ U). reflexivity.
+    + eapply Rsh_ext; [|exact Sh]. apply (upd_other c_shared _ _ _ _ U). reflexivity.
+    + eapply Rin_ext; [|exact In]. apply (upd_other c_inline _ _ _ _ U). reflexivity.
+    + rewrite Re. reflexivity.
+    + eapply Rrp_set; [exact WO| |exact Rp]. apply (upd_same c_retain (fun _ => t) _ _ _ _ U). reflexivity.
+    + repeat split; try assumption. apply NoDup_al_set; [exact bb_eq|exact N4].
+    + intros t2 pl2. destruct (eqb_dec beq_bytes bb_eq t2 t) as [->|NE].
+      * rewrite al_get_set_same by exact bb_eq. intro H. inversion H; subst. intros ->. discriminate.
+      * rewrite al_get_set_other by (exact bb_eq || exact NE). apply Pl.
+Qed.
+
+Lemma expire_R x a t : R x a ->
+  R (fst (expire_retained x t)) (fst (a_step a (OExpire t))) /\
+  snd (expire_retained x t) = snd (a_step a (OExpire t)).
+Proof.
+  intros [Wf Rt Cl Sh In Re Rp (N1 & N2 & N3 & N4) Pl]. unfold expire_retained. cbn [a_step fst snd].
+  split; [|reflexivity]. constructor; cbn [ix_root ix_ret a_cl a_sh a_in a_ret]; try assumption.
+  - rewrite Re. reflexivity.
+  - apply Rrp_expire. exact Rp.
+  - repeat split; try assumption. apply NoDup_al_del. exact N4.
+  - intros t2 pl2. destruct (eqb_dec beq_bytes bb_eq t2 t) as [->|NE].
+    + rewrite al_get_del_same. discriminate.
+    + rewrite al_get_del_other by (exact bb_eq || exact NE). apply Pl.
+Qed.
+
+(* ---------- every operation: the relation is kept and the return value is the specified one ---------- *)
+Lemma step_R x a o : R x a -> wf_opb o = true ->
+  R (fst (t_step x o)) (fst (a_step a o)) /\ snd (t_step x o) = snd (a_step a o).
+Proof.
+  intros HR WO. destruct o; cbn [t_step].
+  - apply subscribe_R; assumption.
+  - apply unsubscribe_R; assumption.
+  - apply inline_subscribe_R; assumption.
+  - apply inline_unsubscribe_R; assumption.
+  - apply retain_R; assumption.
+  - apply expire_R; assumption.
+Qed.
+
+Lemma run_R ops : forall x a, R x a -> wf_ops ops -> R (t_run x ops) (a_run a ops).
+Proof.
+  induction ops as [|o ops IH]; intros x a HR WO; [exact HR|].
+  inversion WO as [|? ? W1 W2]; subst. cbn [t_run a_run]. apply IH; [|exact W2].
+  apply step_R; assumption.
+Qed.
+
+Lemma R_run ops : wf_ops ops -> R (run ops) (abs ops).
+Proof. apply run_R. apply R_empty. Qed.
+
+(* return values of a history *)
+Fixpoint t_rets (x : index) (ops : list op) : list N :=
+  match ops with [] => [] | o :: r => snd (t_step x o) :: t_rets (fst (t_step x o)) r end.
+Fixpoint a_rets (a : astate) (ops : list op) : list N :=
+  match ops with [] => [] | o :: r => snd (a_step a o) :: a_rets (fst (a_step a o)) r end.
+
+Lemma rets_R ops : forall x a, R x a -> wf_ops ops -> t_rets x ops = a_rets a ops.
+Proof.
+  induction ops as [|o ops IH]; intros x a HR WO; [reflexivity|].
+  inversion WO as [|? ? W1 W2]; subst. cbn [t_rets a_rets].
+  destruct (step_R x a o HR W1) as [HR' E]. rewrite E. f_equal. apply IH; assumption.
 Qed.
